@@ -5,7 +5,8 @@ from pathlib import Path
 rows = []
 for d in sorted(Path("/verif/seeded").iterdir()):
     m = json.loads((d / "meta.json").read_text())
-    first = "MISSED at first" if ("MISSED" in m.get("checks_run", "") or "first run" in m.get("checks_run", "")) else "caught at once"
+    first = "MISSED at first" if ("MISSED" in m.get("checks_run", "") or "first run" in m.get("checks_run", "")
+                                  or "caught after" in m.get("checks_run", "")) else "caught at once"
     rows.append(f"| `{d.name}` | {m['summary'][:230].replace('|', '/')} | {first} | {m.get('checks_run', '')[:420].replace('|', '/')} |")
 print("| seeded/<id> | what the change does | first run | outcome / what was strengthened |")
 print("|---|---|---|---|")
